@@ -166,7 +166,8 @@ ExpandSub(c) ==
           \cup F("brackets", Meaning([o EXCEPT !.macros = <<>>], <<>>) #
                              ExpandU(Meaning([i EXCEPT !.macros = <<>>], <<>>), c.prep, c.meas))
           \cup F("header_carried", LetsOf(o) # LetsOf(i) \/ RegsOf(o) # RegsOf(i) \/ NativeSet(o) # NativeSet(i))
-          \cup F("macros_kept", MacroSigs(o) # MacroSigs(i))
+          \* (signatures, and the ORDER of the definitions: a macro may call the macros defined before it only)
+          \cup F("macros_kept", MacroSigs(o) # MacroSigs(i) \/ [j \in DOMAIN o.macros |-> o.macros[j].v] # [j \in DOMAIN i.macros |-> i.macros[j].v])
           \cup F("macro_brackets", MacroSigs(o) = MacroSigs(i) /\
                   \E j \in DOMAIN i.macros :
                      LET env == Env(i, <<>>)
@@ -216,7 +217,7 @@ UnitTiming(c) ==
 
 Clauses(c) ==
   CASE c.site = "parse" -> Parse(c)
-    [] c.site = "unit_timing" -> UnitTiming(c)
+    [] c.site \in {"unit_timing", "unit_timing_again"} -> UnitTiming(c)
     [] c.site = "expand_macros" -> ExpandMacros(c, FALSE)
     [] c.site = "expand_macros_preserve" -> ExpandMacros(c, TRUE)
     [] c.site = "fill_in_let" -> FillInLet(c)
